@@ -1,5 +1,6 @@
 import ChythonModel.Model.SmartsFull
 import ChythonModel.Model.C08Match
+import ChythonModel.Model.C08Cx
 /-!
 # C08 driver — line protocol (all arguments are ints; strings travel as code points)
 
@@ -18,6 +19,7 @@ import ChythonModel.Model.C08Match
 * `sf <nrad> <rad>* <cp>*`                        → `smarts()` on the full syntax (branches, closures, plain atoms)
 * `m1 <ncp> <cp>* <mol> <nrings> …`               → atoms matched by the single-atom SMARTS (sorted)
 * `m2 <ncp> <cp>* <mol> <nrings> …`               → ordered atom pairs matched by a two-atom SMARTS
+* `st <cp>*`                                      → `smarts(data)` on the whole input string (white-space split, CX radical block, full syntax)
 * `mn <ncp> <cp>* <mol> <nrings> … <ncomp> <len>*ncomp <atom>*` → all mappings of a pattern of any size (full text syntax) found by
                                                     `get_mapping(mol, automorphism_filter=False, _cython=False)`, in yield order:
                                                     `ok img … ; img …` (images in query-atom order) | `stereo` | `noquery` | `raises`
@@ -314,6 +316,11 @@ def handle (line : String) : String :=
                | _ => "noquery")
             | none => "error mol")
          | none => "error m2")
+      | "st" =>
+        (match smartsText (nats xs) with
+         | .ok g => showGraph g
+         | .unsupported => "unsupported"
+         | .err e => s!"err {e.name}")
       | "mn" =>
         (match takeList xs with
          | some (cps, rest) =>
